@@ -883,7 +883,7 @@ def run(ctx: Ctx):
                 "tuple indices NumPy refuses (g[first, 3]: after the jd parts were sliced; t[first, 0]), single epochs as tuple indices (t[i, ...], t[..., i]), view/T/reshape/ravel/ufunc, "
                 "squeeze()/own scale (the object itself), flatten/astype/np.unique/np.sort (refused), np.concatenate/np.append (plain "
                 "ndarray), copy/copy.copy/deepcopy, subset, insert, scale conversion there and back, iterate, refused assignment}: "
-                "all sequences up to length L over a 35-letter alphabet (targets: base array / last result) for 1-column (mjd) and "
+                "all sequences up to length L over a 35-letter alphabet (31 letters at length 3) (targets: base array / last result) for 1-column (mjd) and "
                 "3-column (gps_ws) arrays, plus random sequences up to length 40 over arrays of length 0..6 and derivation-path "
                 "sequences (t[s1][s2] / t[[composed]] / subset / copy / view / TAI and back); for every operation the "
                 "__array_finalize__ calls of the real code are recorded and compared with the model's, for pairs of arrays == and "
@@ -904,18 +904,22 @@ def _run_all(ctx: Ctx, Time, rng):
     n_ex = 0
     for kind in ("mjd", "gps_ws", "leap"):
         for length in range(1, (L if kind != "leap" else L - 1) + 1):
-            for seq in itertools.product(alphabet, repeat=length):
+            # (length 3: without four letters on the base array whose effect is covered at length 2 - keeps the thorough tier
+            # inside its time)
+            letters = alphabet if length < 3 else [a for a in alphabet if a not in (
+                ("same", 0), ("refused", 0, "flatten"), ("refused", 0, "sort"), ("getbad", 0, ("s", 1, 3, 1)))]
+            for seq in itertools.product(letters, repeat=length):
                 run_sequence(ctx, Time, kind, (4, 2), list(seq), rng, True)
                 n_ex += 1
     ctx.extra["exhaustive_sequences"] = n_ex
     ctx.extra["exhaustive_max_length"] = L
     # a sample of length-(L+1) sequences
-    for _ in range(ctx.budget(300, 6000)):
+    for _ in range(ctx.budget(300, 4000)):
         kind = rng.choice(["mjd", "gps_ws", "leap"])
         seq = [rng.choice(alphabet) for _ in range(L + 1)]
         run_sequence(ctx, Time, kind, (4, 2), seq, rng, True)
     # long random sequences
-    for _ in range(ctx.budget(150, 5000)):
+    for _ in range(ctx.budget(150, 3500)):
         kind = rng.choice(["mjd", "gps_ws", "leap"])
         sizes = (rng.randint(1, 6), rng.randint(1, 4))
         length = rng.randint(3, 40)
@@ -925,7 +929,7 @@ def _run_all(ctx: Ctx, Time, rng):
     for _ in range(ctx.budget(20, 300)):
         check_split_pairs(ctx, Time, rng)
     # derivation paths to the same epochs
-    for _ in range(ctx.budget(120, 3000)):
+    for _ in range(ctx.budget(120, 2000)):
         kind = rng.choice(["mjd", "gps_ws", "leap"])
         run_sequence(ctx, Time, kind, (rng.randint(2, 6), rng.randint(1, 3)), path_sequence(rng), rng, False)
     ctx.traces = ctx.evaluations
